@@ -506,6 +506,10 @@ def instances(tier):
             for sal in (False, True):
                 out.append(weight_instance(lead, K, N, wca, sal))
     out.append(weight_instance((2, 2), 2, 2, (-4, -1), True))
+    # non-negative axis numbers on affiliations of rank 2, 3 and 4 (the class axis is the last but one)
+    for lead, wca in [((), 1), ((), 0), ((), (1,)), ((2,), 2), ((2,), 1), ((2,), (0, 2)), ((2, 2), 2), ((2, 2), 3), ((2, 2), (0, 3))]:
+        for sal in (False, True):
+            out.append(weight_instance(lead, 2, 2, wca, sal))
     for ct in ('full', 'diagonal', 'spherical'):
         out.append(gaussian_fit_instance(ct, (), 3, 2, False))
         out.append(gaussian_fit_instance(ct, (), 3, 2, True))
@@ -573,6 +577,24 @@ def mstep_instance(kind, wca=(-1,), with_saliency=True):
             return SENT[name]
         return f
 
+    # non-default option values: every option of the M-step that the component estimator has a parameter for must arrive there
+    OPT = {'hermitize': False, 'covariance_norm': 'trace', 'eigenvalue_floor': 1e-7, 'covariance_type': 'diagonal', 'fixed_covariance': None,
+           'min_concentration': 1e-3, 'max_concentration': 77.0}
+    REAL_FIT = {'cacg': cacg_mod.ComplexAngularCentralGaussianTrainer._fit, 'gaussian': gauss_mod.GaussianTrainer._fit,
+                'vmf': vmf_mod.VonMisesFisherTrainer._fit, 'watson': cw_mod.ComplexWatsonTrainer._fit, 'bingham': cb_mod.ComplexBinghamTrainer._fit}
+
+    def option_checks(sp, lg, comp, given):
+        import inspect
+        _, a, k = lg[comp]
+        try:
+            bound = inspect.signature(REAL_FIT[comp]).bind(None, *a, **k).arguments
+        except TypeError as e:
+            yield 'component-estimator-call-matches-its-signature[%s]' % comp, sp._f(False)
+            return
+        for name in given:
+            if name in inspect.signature(REAL_FIT[comp]).parameters:
+                yield 'option-%s-forwarded-to-%s' % (name, comp), sp._f(name in bound and (bound[name] is OPT[name] or bound[name] == OPT[name]))
+
     def patches():
         ps = []
         if not integration:
@@ -607,23 +629,25 @@ def mstep_instance(kind, wca=(-1,), with_saliency=True):
         tr = {'cacgmm': cacgmm.CACGMMTrainer, 'cwmm': cwmm.CWMMTrainer, 'cbmm': cbmm.CBMMTrainer, 'gmm': gmm.GMMTrainer,
               'vmfmm': vmfmm.VMFMMTrainer, 'gcacgmm': gcacgmm.GCACGMMTrainer, 'vmfcacgmm': vmfcacgmm.VMFCACGMMTrainer}[kind]()
         if kind == 'cacgmm':
-            m = tr._m_step(np.swapaxes(inp['y'], -1, -2), inp['q'], affiliation=inp['aff'], saliency=inp['sal'], hermitize=True,
-                           covariance_norm='eigenvalue', eigenvalue_floor=1e-10, weight_constant_axis=wca)
+            m = tr._m_step(np.swapaxes(inp['y'], -1, -2), inp['q'], affiliation=inp['aff'], saliency=inp['sal'], hermitize=OPT['hermitize'],
+                           covariance_norm=OPT['covariance_norm'], eigenvalue_floor=OPT['eigenvalue_floor'], weight_constant_axis=wca)
         elif kind in ('cwmm', 'cbmm'):
             tr.dimension = D
             m = tr._m_step(inp['y'], affiliation=inp['aff'], saliency=inp['sal'], weight_constant_axis=wca)
         elif kind == 'gmm':
-            m = tr._m_step(inp['y'], affiliation=inp['aff'], saliency=inp['sal'], weight_constant_axis=wca, covariance_type='full', fixed_covariance=None)
+            m = tr._m_step(inp['y'], affiliation=inp['aff'], saliency=inp['sal'], weight_constant_axis=wca, covariance_type=OPT['covariance_type'],
+                           fixed_covariance=OPT['fixed_covariance'])
         elif kind == 'vmfmm':
-            m = tr._m_step(inp['y'], affiliation=inp['aff'], saliency=inp['sal'], weight_constant_axis=wca, min_concentration=1e-10, max_concentration=500)
+            m = tr._m_step(inp['y'], affiliation=inp['aff'], saliency=inp['sal'], weight_constant_axis=wca, min_concentration=OPT['min_concentration'],
+                           max_concentration=OPT['max_concentration'])
         elif kind == 'gcacgmm':
-            m = tr._m_step(inp['y'], inp['emb'], inp['q'], affiliation=inp['aff'], saliency=inp['sal'], hermitize=True, covariance_norm='eigenvalue',
-                           eigenvalue_floor=1e-10, covariance_type='spherical', fixed_covariance=None, weight_constant_axis=wca,
-                           spatial_weight=1., spectral_weight=1.)
+            m = tr._m_step(inp['y'], inp['emb'], inp['q'], affiliation=inp['aff'], saliency=inp['sal'], hermitize=OPT['hermitize'],
+                           covariance_norm=OPT['covariance_norm'], eigenvalue_floor=OPT['eigenvalue_floor'], covariance_type='spherical',
+                           fixed_covariance=OPT['fixed_covariance'], weight_constant_axis=wca, spatial_weight=1., spectral_weight=1.)
         else:
-            m = tr._m_step(inp['y'], inp['emb'], inp['q'], affiliation=inp['aff'], saliency=inp['sal'], min_concentration=1e-10,
-                           max_concentration=500, hermitize=True, covariance_norm='eigenvalue', eigenvalue_floor=1e-10,
-                           weight_constant_axis=wca, spatial_weight=1., spectral_weight=1.)
+            m = tr._m_step(inp['y'], inp['emb'], inp['q'], affiliation=inp['aff'], saliency=inp['sal'], min_concentration=OPT['min_concentration'],
+                           max_concentration=OPT['max_concentration'], hermitize=OPT['hermitize'], covariance_norm=OPT['covariance_norm'],
+                           eigenvalue_floor=OPT['eigenvalue_floor'], weight_constant_axis=wca, spatial_weight=1., spectral_weight=1.)
         return {'model': m, 'log': list(log), 'sent': dict(SENT)}
 
     def masked(sp, inp):
@@ -658,6 +682,9 @@ def mstep_instance(kind, wca=(-1,), with_saliency=True):
                                                           sp.all(sp.eq(cells(sal)[i], ma[i]) for i in np.ndindex(F, K, N)))
             if kind == 'cacgmm':
                 yield 'quadratic-form-of-e-step-passed', sp._f(k.get('quadratic_form') is inp['q'])
+            given = {'cacgmm': ['hermitize', 'covariance_norm', 'eigenvalue_floor'], 'gmm': ['covariance_type', 'fixed_covariance'],
+                     'vmfmm': ['min_concentration', 'max_concentration']}.get(kind, [])
+            yield from option_checks(sp, lg, comp, given)
             return
         # integration models: inline weights
         w = m.weight
@@ -690,6 +717,13 @@ def mstep_instance(kind, wca=(-1,), with_saliency=True):
         yield 'spatial-estimator-arguments', sp.and_(sp._f(shape_of(k.get('y')) == (F, 1, D, N) and k.get('quadratic_form') is inp['q']),
                                                      sp.FALSE if shape_of(k.get('saliency')) != (F, K, N) else
                                                      sp.all(sp.eq(cells(k['saliency'])[i], ma[i]) for i in np.ndindex(F, K, N)))
+        yield from option_checks(sp, lg, 'cacg', ['hermitize', 'covariance_norm', 'eigenvalue_floor'])
+        if 'gaussian' in lg:
+            yield from option_checks(sp, lg, 'gaussian', ['fixed_covariance'])
+            _g = lg['gaussian']
+            yield 'option-covariance_type-forwarded-to-gaussian', sp._f(_g[2].get('covariance_type') == 'spherical')
+        else:
+            yield from option_checks(sp, lg, 'vmf', ['min_concentration', 'max_concentration'])
         _, a2, k2 = lg['gaussian'] if 'gaussian' in lg else lg['vmf']
         ys, ss = k2.get('y'), k2.get('saliency')
         okshape = shape_of(ys) == (1, F * N, Ed) and shape_of(ss) == (K, F * N)
